@@ -7,8 +7,8 @@ from harness import pipeline as PL, solver as S
 
 SPEC = {
     "gen": ["Rotations", "GetHkl", "Crystal"],
-    "modules": ["DiffcalcProofs.Props.C11"],
-    "theorems": {"DiffcalcProofs.Props.C11": [
+    "modules": ["DiffcalcProofs.Props.C11", "DiffcalcProofs.Props.C08Miscut"],
+    "theorems": {"DiffcalcProofs.Props.C08Miscut": ["C08.getMiscut_total"], "DiffcalcProofs.Props.C11": [
         "C11.c11_getPosition", "C11.getPosition_noLeak", "C11.getPosition_nonempty", "C11.hklToPosition_noLeak", "C11.noLeak_candidates",
         "C11.virtualAngles_total", "C11.noLeak_ttheta", "C11.calcN_total", "C11.angleBetween_total", "C11.noLeak_detSampleReference",
         "C11.noLeak_twoSampleDetector", "C11.noLeak_twoSampleReference", "C11.noLeak_threeSample", "C11.noLeak_remainingSample",
@@ -152,6 +152,21 @@ def oracle(ctx, widen=1):
         if ctx.rng.random() < 0.3:
             ub.n_phi = tuple(ctx.rng.choice([(0, 0, 2.0), (1.0, 1.0, 0), (0, 0.5, 0.5), (3.0, 0, 0)]))
         pos = [float(ctx.rng.choice(PL.SPECIAL)) if ctx.rng.random() < 0.4 else ctx.rng.uniform(-720, 720) for _ in range(6)]
+        if ctx.rng.random() < 0.35:
+            # reference (or surface) vector exactly / nearly parallel or anti-parallel to the scattering vector of this position:
+            # psi, naz, tau sit at or next to their poles (offsets from 1e-9 to 1e-3 rad straddle every threshold used by the code)
+            from harness.common import mats
+            ki, kf, Z = mats([x for x in pos])
+            q = kf - ki
+            if np.linalg.norm(q) > 1e-6:
+                qphi = Z.T @ (q / np.linalg.norm(q))
+                t = np.cross(qphi, [0.3, -0.5, 0.8]); t = t / np.linalg.norm(t)
+                eps = ctx.rng.choice([0.0, 1e-9, 3e-8, 1e-7, 3e-7, 1e-6, 1e-5, 3e-5, 1e-4, 1e-3])
+                v = (qphi * math.cos(eps) + t * math.sin(eps)) * ctx.rng.choice([1.0, -1.0]) * ctx.rng.choice([1.0, 2.5])
+                if ctx.rng.random() < 0.7:
+                    ub.n_phi = tuple(float(x) for x in v)
+                else:
+                    ub.surf_nphi = tuple(float(x) for x in v)
         hc = HklCalculation(ub, Constraints({k: (True if k in VOID else 1.0) for k in ctx.rng.choice(PL.modes())}))
         for what, f in (("get_hkl", lambda: hc.get_hkl(Position(*pos), 1.0)), ("get_virtual_angles", lambda: hc.get_virtual_angles(Position(*pos))),
                         ("str(HklCalculation)", lambda: str(hc)), ("str(UBCalculation)", lambda: str(ub)), ("str(Constraints)", lambda: str(hc.constraints))):
